@@ -25,8 +25,9 @@ class NDesc(object):
     nodes[i] = dict(parent, kids [definition order], init [initial children, order of the `initial`
     list; [] = none], final, cbs [on_final callback ids]); roots; initial (node id); mcbs (machine
     on_final callback ids); trans = [dict(ev, src, dst | None, scope | None, cond None/True/False)];
-    history = [('e', ev) | ('to', node)]; kind 0 sync / 1 async; coro = callback ids realised as
-    coroutine functions (async only)."""
+    history = [('e', ev) | ('to', node)]; kind 0 sync / 1 async; coro = on_final callback ids realised as
+    coroutine functions (async only); susp = [[cb, k]]: that coroutine really suspends k times
+    (`await asyncio.sleep(0)`) between its start and its end."""
 
     def __init__(self):
         self.nodes = []
@@ -37,12 +38,13 @@ class NDesc(object):
         self.history = []
         self.kind = 0
         self.coro = []
+        self.susp = []
         self.flags = None        # optional list of final-flag placements applied in turn (exhaustive tier)
 
     def to_json(self):
         return {'nodes': self.nodes, 'roots': self.roots, 'initial': self.initial, 'mcbs': self.mcbs,
                 'trans': self.trans, 'history': [list(h) for h in self.history], 'kind': self.kind,
-                'coro': list(self.coro)}
+                'coro': list(self.coro), 'susp': [list(x) for x in self.susp]}
 
     @staticmethod
     def from_json(j):
@@ -55,6 +57,7 @@ class NDesc(object):
         d.history = [tuple(h) for h in j['history']]
         d.kind = j.get('kind', 0)
         d.coro = list(j.get('coro', []))
+        d.susp = [list(x) for x in j.get('susp', [])]
         return d
 
     # -- names -------------------------------------------------------------------------------
@@ -100,12 +103,12 @@ def enc_forest(roots):
     return o
 
 
-def request(d, variant, roots, entered, finals=None):
-    return ('c18', [variant] + d.enc_defs(finals) + enc_forest(roots) + [len(entered)] + list(entered))
+def request(d, roots, entered, finals=None):
+    return ('c18', d.enc_defs(finals) + enc_forest(roots) + [len(entered)] + list(entered))
 
 
 def parse_answer(ans):
-    """`S <owners> <cbs> C <0 owners cbs | 1> W <wf> <noleak> <nocompound> <nodup>`"""
+    """`S <owners> <cbs> C <0 owners cbs | 1> W <wf> <nodup>`"""
     if not ans.startswith('S '):
         raise common.MachineryError('driver answered %r to a c18 request' % ans[:200])
     s, rest = ans[2:].split(' C ')
@@ -122,8 +125,7 @@ def parse_answer(ans):
     wn = [int(x) for x in w.split()]
     spec = two(sn)
     code = None if cn[0] == 1 else two(cn[1:])
-    return {'spec': spec, 'code': code, 'wf': bool(wn[0]), 'noleak': bool(wn[1]), 'nocompound': bool(wn[2]),
-            'nodup': bool(wn[3])}
+    return {'spec': spec, 'code': code, 'wf': bool(wn[0]), 'nodup': bool(wn[1])}
 
 
 # ---------------------------------------------------------------------------------------------
@@ -230,7 +232,9 @@ def gen_desc(rng, kn=None, kind=0):
             d.history.append(('e', rng.randrange(nev)))
     if kind == 1:
         ncb = max([0] + d.mcbs + [c for nd in d.nodes for c in nd['cbs']])
-        d.coro = [c for c in range(1, ncb + 1) if rng.random() < 0.5]
+        d.coro = [c for c in range(1, ncb + 1) if rng.random() < 0.6]
+        # most coroutine recorders really suspend; callbacks of deeper states tend to take longer
+        d.susp = [[c, rng.randint(1, 3)] for c in d.coro if rng.random() < 0.75]
     return d
 
 
@@ -318,6 +322,10 @@ def small_desc(nodes, roots, kind=0):
     d.mcbs = [len(nodes) + 1]
     d.kind = kind
     n = len(nodes)
+    if kind == 1:
+        # every state's recorder suspends, deeper states longer; the machine's does not
+        d.coro = list(range(1, n + 2))
+        d.susp = [[i + 1, 1 + d.depth(i)] for i in range(n)]
     if n <= 4:
         # single transitions: from the configuration reached by entering Y, go to Z — for all Y, Z
         for y in range(n):
@@ -376,7 +384,8 @@ class NRun(object):
       ('bsc',) ('asc', snap)                machine before/after_state_change: one transition's bracket
       ('before', t) ('after', t, snap)      the transition's own callbacks
       ('exit', node) ('enter', node, snap)  state callbacks
-      ('final', owner, cb, snap)            on_final recorders; owner -1 = machine
+      ('final', owner, cb, snap)            on_final recorders (start); owner -1 = machine
+      ('final_end', owner, cb) ('enter_end', node)   a coroutine recorder completes (async class only)
     """
 
     def __init__(self, desc):
@@ -397,9 +406,9 @@ class NRun(object):
             fr = self._snaps[key] = freeze(parse_state(v))
         return fr
 
-    def rec(self, make, cb=None, co=False):
-        """a recorder; on the async class a coroutine function (that does not suspend) when `co` or when
-        the on_final callback id `cb` is listed in `desc.coro`"""
+    def rec(self, make, cb=None, co=False, end=None, susp=0):
+        """a recorder; on the async class a coroutine function when `co` or when the on_final callback id
+        `cb` is listed in `desc.coro`; a coroutine recorder suspends `susp` times and then logs `end()`"""
         run = self
 
         def f(*_a, **_k):
@@ -407,8 +416,17 @@ class NRun(object):
                 run.cur.append(make())
             return True
         if self.is_async and (co or (cb is not None and cb in self.d.coro)):
+            if cb is not None:
+                susp = dict((c, k) for c, k in self.d.susp).get(cb, 0)
+
             async def g(*_a, **_k):
-                return f()
+                cur = run.cur
+                f()
+                for _ in range(susp):
+                    await asyncio.sleep(0)
+                if end is not None and cur is not None:
+                    cur.append(end())
+                return True
             return g
         return f
 
@@ -437,9 +455,11 @@ class NRun(object):
         d = self.d
         nd = d.nodes[i]
         sd = {'name': seg(i), 'final': bool(nd['final']),
-              'on_enter': [self.rec(lambda: ('enter', i, self.snap()), co=(i % 2 == 1))],
+              'on_enter': [self.rec(lambda: ('enter', i, self.snap()), co=(i % 2 == 1), end=lambda: ('enter_end', i),
+                                   susp=i % 3)],
               'on_exit': [self.rec(lambda: ('exit', i), co=(i % 3 == 0))],
-              'on_final': [self.rec((lambda c: (lambda: ('final', i, c, self.snap())))(c), cb=c) for c in nd['cbs']]}
+              'on_final': [self.rec((lambda c: (lambda: ('final', i, c, self.snap())))(c), cb=c,
+                                   end=(lambda c: (lambda: ('final_end', i, c)))(c)) for c in nd['cbs']]}
         if nd['kids']:
             kids = [self.node_def(k) for k in nd['kids']]
             if nd['init'] == nd['kids'] and len(kids) >= 2 and i % 2 == 0:
@@ -467,7 +487,8 @@ class NRun(object):
                    auto_transitions=True, ignore_invalid_triggers=True,
                    before_state_change=[self.rec(lambda: ('bsc',))],
                    after_state_change=[self.rec(lambda: ('asc', self.snap()))],
-                   on_final=[self.rec((lambda c: (lambda: ('final', -1, c, self.snap())))(c), cb=c) for c in d.mcbs])
+                   on_final=[self.rec((lambda c: (lambda: ('final', -1, c, self.snap())))(c), cb=c,
+                                      end=(lambda c: (lambda: ('final_end', -1, c)))(c)) for c in d.mcbs])
 
     def set_flags(self, finals):
         """another placement of the final flags on the same machine (`State.final` is a plain attribute)"""
@@ -670,8 +691,20 @@ def judge_segment(d, final, sg):
         else:
             continue
         break
+    # … and a descendant's callbacks have COMPLETED before an ancestor's start (coroutine callbacks)
+    items = sg.items
+    for a, ia in enumerate(items):
+        if ia[0] != 'final':
+            continue
+        for ib in items[a + 1:]:
+            if ib[0] == 'final_end' and ib[1] != ia[1] and ia[1] in anc.get(ib[1], ()):
+                problems.append('on_final of %s starts before on_final of its descendant %s has completed' % (ia[1], ib[1]))
+                break
+        else:
+            continue
+        break
     # position: after the on_enter callbacks, before the transition's after callbacks
-    kinds = [it[0] for it in sg.items]
+    kinds = ['enter' if it[0] == 'enter_end' else ('final' if it[0] == 'final_end' else it[0]) for it in sg.items]
     if 'final' in kinds:
         first_final = kinds.index('final')
         last_final = len(kinds) - 1 - kinds[::-1].index('final')
